@@ -96,6 +96,15 @@ def judge(rep, drv, rec, text, label):
         rep.disagreements_checked += 1
         rep.violation(dict(payload, kind='text outside the grammar was compiled', output=real[1][:1500]))
         return False
+    if real[0] == 'ok' and in_language:
+        # a clause whose head is `true`, `fail` or `!` is a sentence of the grammar, but there is nothing it
+        # could define: a compiler that returns has left that clause out
+        toks = [(str(k), t) for k, t in lexed[1:]]
+        for j, (k, t) in enumerate(toks):
+            if k in ('TRUE', 'FAIL', 'CUT') and (j == 0 or toks[j - 1][1] == '.') and j + 1 < len(toks) and toks[j + 1][1] in ('.', ':-'):
+                rep.disagreements_checked += 1
+                rep.violation(dict(payload, kind='a clause of the text (head %s) is not in the compiled program' % t, output=real[1][:1500]))
+                return False
     if real[0] == 'ok':
         # nothing omitted or altered: the definitions are those of the clauses of the text
         if front[0] == 'ok':
@@ -129,6 +138,10 @@ def case(rep, drv, rnd, i, tier):
     rec = g4.recogniser()
     g = cgen.CGen(rnd, hostile=0.25, directives=0.15, bad_heads=0.03)
     text = g.text(g.program(rnd.randint(1, 4)))
+    if rnd.random() < 0.12:
+        # a clause that is a sentence of the grammar but defines nothing (the visitor must refuse it)
+        text += rnd.choice(['true.', 'fail.', '!.', 'true :- a.', 'fail :- a, b.', '! :- true.']) + '\n' + (g.text(g.program(1)) if rnd.random() < 0.5 else '')
+        rep.count('non-predicate-head')
     rep.count('programs')
     if not judge(rep, drv, rec, text, 'none'):
         return
